@@ -961,8 +961,10 @@ def norm_tree(t, v):
         return v
     if k == "ptr" and under(u[1])[0] not in ("struct", "time"):
         inner = norm_tree(u[1], v[1])
-        if inner == ("nil",) and under(u[1])[0] in ("ptr", "iface"):
+        pk = under(u[1])
+        if inner == ("nil",) and (pk[0] == "iface" or (pk[0] == "ptr" and under(pk[1])[0] not in ("struct", "time"))):
             return ("nil",)      # pointers are transparent in the script: a pointer to a nil pointer/interface is nil
+                                 # (a nil pointer to a struct is a proxy of its own and survives)
         return ("box", inner)
     if k == "slice":
         return ("sl", [norm_tree(u[1], x) for x in v[1]])
@@ -1027,6 +1029,11 @@ def gen_cases(rng, n_types, per_type):
     st5 = g.struct([(FIELD, ("slice", ("ptr", ("int", "int"))))])
     add("set", [(st5, ("st", [("nil",)]))], [],
         ("set", ("c", 0), FIELD, ("lit", ("l", [("i", 1), ("nil",)]))), {"ft": ("slice", ("ptr", ("int", "int"))), "lit": ("l", [("i", 1), ("nil",)])})
+    inner7 = g.struct([(FIELD, ("int", "int"))])
+    outer8 = g.struct([(FIELD, inner7)])
+    st6 = g.struct([(FIELD, ("ptr", outer8))])
+    lit6 = ("m", [(FIELD, ("m", [(FIELD, ("i", 4))]))])
+    add("set", [(st6, ("st", [("box", ("st", [("st", [("i", 1)])]))]))], [], ("set", ("c", 0), FIELD, ("lit", lit6)), {"ft": ("ptr", outer8), "lit": lit6})
     add("call", ["rec"], [], ("call", "TakeDur", METHODS["TakeDur"], [("lit", ("i", 5))]), {"method": "TakeDur", "lits": [("i", 5)]})
     add("call", ["rec"], [], ("call", "TakePInts", METHODS["TakePInts"], [("lit", ("l", [("i", 1)]))]), {"method": "TakePInts", "lits": [("l", [("i", 1)])]})
 
@@ -1156,6 +1163,32 @@ def tree_has_nil_inside(v, top=True):
     return False
 
 
+def lit_sets_struct_field(t, o, top=False):
+    """does converting the literal o to type t build a struct from a map that sets a struct-kind field?
+    top: t is the type of a field assigned through Proxy.SetAttr (repaired: the pointed-to struct is stored)"""
+    u = under(t)
+    k = u[0]
+    if k == "ptr":
+        return lit_sets_struct_field(u[1], o, top and under(u[1])[0] != "struct")
+    if k == "struct" and o[0] == "m":
+        for kk, x in o[1]:
+            for n, ft in u[2]:
+                if n == kk:
+                    if under(ft)[0] in ("struct", "time"):
+                        return True
+                    if x[0] == "nil" and under(ft)[0] in ("ptr", "slice", "map", "iface"):
+                        return True      # f.Set(reflect.ValueOf(nil)): the zero Value
+                    if lit_sets_struct_field(ft, x):
+                        return True
+        return False
+    if k in ("slice", "array") and o[0] == "l":
+        et = u[1] if k == "slice" else u[2]
+        return any(lit_sets_struct_field(et, x) for x in o[1])
+    if k == "map" and o[0] == "m":
+        return any(lit_sets_struct_field(u[1], x) for _, x in o[1])
+    return False
+
+
 def type_has(t, pred):
     if pred(t):
         return True
@@ -1177,31 +1210,23 @@ def classify(case):
     ts = case_types(case)
     if any(has_named_scalar(t) for t in ts):
         cls.add("named-scalar")
-    if any(g is None for g in case["globals"]):
-        cls.add("untyped-nil")
+    # a script map that builds a Go struct and sets a field of struct (or time.Time) type: StructConverter.To
+    # still stores the pointer the field converter returns
     s = case["script"]
     targets = []
-    lits = []
-    if s[0] == "set":
-        ft = case["meta"].get("ft")
-        if ft is not None:
-            targets.append(ft)
-        if s[3][0] == "lit":
-            lits.append(s[3][1])
+    if s[0] == "set" and case["meta"].get("ft") is not None:
+        targets.append(case["meta"]["ft"])
     if s[0] == "call":
         targets += list(s[2])
-        lits += [a[1] for a in s[3] if a[0] == "lit"]
-    if any(type_has(t, lambda x: x[0] == "array") for t in targets):
-        cls.add("array-length")
-    if any(lit_has_nil_inside(l) for l in lits) or (s[0] == "set" and s[3][0] != "lit"
-                                                    and tree_has_nil_inside(case["meta"].get("from_go", ("b", True)))):
-        cls.add("nil-element")
-    if s[0] == "set" and any(type_has(t, lambda x: x[0] in ("struct", "time")) for t in targets):
-        cls.add("struct-field")
+    pairs = []
+    if s[0] == "set" and s[3][0] == "lit" and case["meta"].get("ft") is not None:
+        pairs.append((case["meta"]["ft"], s[3][1]))
+    if s[0] == "call":
+        pairs += [(pt, a[1]) for pt, a in zip(s[2], s[3]) if a[0] == "lit"]
+    if any(lit_sets_struct_field(t, o, top=(s[0] == "set")) for t, o in pairs):
+        cls.add("struct-literal-field")
     if any(type_has(t, lambda x: x[0] == "ptr" and x[1][0] in ("named", "iface")) for t in targets):
         cls.add("ptr-to-named")
-    if any(type_has(t, lambda x: x[0] == "ptr" and under(x[1])[0] in ("ptr", "iface", "slice", "map")) for t in targets):
-        cls.add("nil-element")
     if case["meta"].get("through_copy") or (s[0] == "set" and s[1][0] != "c"):
         cls.add("copy-proxy")
     ints = []
@@ -1222,10 +1247,7 @@ def classify(case):
 
 PANIC_FAMILIES = {
     "named-scalar": ("interface conversion: interface {} is ", "is not assignable to type", "reflect: Call using "),
-    "untyped-nil": ("invalid memory address or nil pointer dereference",),
-    "array-length": ("array index out of range",),
-    "nil-element": ("on zero Value", "reflect: New(nil)", "reflect.Set: value of type", "reflect: Call using zero Value"),
-    "struct-field": ("is not assignable to type",),
+    "struct-literal-field": ("is not assignable to type", "on zero Value"),
     "ptr-to-named": ("is not assignable to type", "reflect: Call using "),
     "unsupported-type": ("invalid global provided",),
 }
@@ -1250,7 +1272,10 @@ def oracle(case, g):
         return viol
     if out != "ok":
         return viol
-    if kind == "global" and "t" in meta:
+    if kind == "global" and meta.get("untyped"):
+        if g.get("iface") != "nil" or g.get("obj") != "nil":
+            viol.append(("faithful", "an untyped nil global reads as %s" % g.get("obj"), None))
+    elif kind == "global" and "t" in meta:
         want = widen(meta["t"], meta["v"])
         if g.get("iface") != want:
             viol.append(("faithful", "result.Interface() of the global is %s, the Go value is %s" % (g.get("iface"), want),
@@ -1286,7 +1311,7 @@ def oracle(case, g):
                 idx = [n for n, _ in cell_t[2]].index(FIELD)
                 fields = others[:idx] + [plain(e)] + others[idx:]
                 want_cell = "st{" + ",".join(fields) + "}"
-                vcls = "uint64-wrap" if "uint64-wrap" in cls else ("nil-element" if "nil-element" in cls else None)
+                vcls = "uint64-wrap" if "uint64-wrap" in cls else None
                 if g["cells"][0] != want_cell:
                     viol.append(("go-side", "after `%s` the Go struct is %s, expected %s" % (meta.get("src", "set"), g["cells"][0], want_cell), vcls))
                 want = widen(ft, e, direct="field" if under(ft)[0] == "time" else True)
@@ -1306,8 +1331,7 @@ def oracle(case, g):
                     else:
                         want.append("%s;%s" % (tstr(pt), plain(e)))
                 if g["got"] != want:
-                    viol.append(("args-exact", "the method received %s, the script passed %s" % (g["got"], want),
-                                 "nil-element" if "nil-element" in cls else None))
+                    viol.append(("args-exact", "the method received %s, the script passed %s" % (g["got"], want), None))
     return viol
 
 
